@@ -9,9 +9,13 @@ TECH_B = ("contracts on the real code checked natively on enumerated/small-scope
           "no obligation is counted as proved)")
 # proved: what the discharged obligations establish (None = nothing deductive yet);  bounded: what only the bounded native side covers
 C = {
- "C01": (None, "input rails gating through the real LLMRails (Colang 1.0 general/passthrough/dialog, Colang 2.x guardrails library): order, stop on reject, "
-               "no LLM call after reject, rewritten text in every later prompt; multi-turn", "FakeLLM, scripted rail actions; bounds in evidence"),
- "C02": (None, "output rails gating through the real LLMRails, multi-turn (3-5 turns), Colang 1.0 modes and Colang 2.x guardrails library: every LLM-generated "
+ "C01": ("flow contracts on the shipped llm_flows.co (parser output): `process user input` creates UserMessage only after ALL configured input rails ran, in the "
+         "configured order, once each (or none when the category is disabled); the text of UserMessage is $user_message after the last rail; any number of rails",
+         "input rails gating through the real LLMRails (Colang 1.0 general/passthrough/dialog, Colang 2.x guardrails library): order, stop on reject, "
+               "no LLM call after reject, rewritten text in every later prompt; multi-turn", "A-COLANG: operational reading of the Colang 1.0 elements; cross-flow event dispatch, history replay, prompt construction and the LLMRails driver are "
+         "not verified (bounded only); Colang 2.x guardrails library bounded only"),
+ "C02": ("flow contracts on `process bot message` / `run output rails` (parser output): StartUtteranceBotAction only after all configured output rails ran in order "
+         "(unless skipped / disabled), script == $bot_message after the last rail, and $skip_output_rails is false on EVERY completion of the flow", "output rails gating through the real LLMRails, multi-turn (3-5 turns), Colang 1.0 modes and Colang 2.x guardrails library: every LLM-generated "
                "bot message passes all rails in order, rejected text never returned, later turns still checked", "FakeLLM, scripted rail actions"),
  "C03": ("ActionDispatcher.execute_action: whatever the registered action does (unknown code that may raise any Exception at its call, in its constructor, when "
          "awaited) only the forwarded LLMCallException escapes and the result is (r,'success') or (None,'failed')",
@@ -44,12 +48,20 @@ C = {
          "_parse_colang_files_recursively lets only ColangParsingError (or open's OSError) escape whatever parse_colang_file raises",
          "layout invariance (blank lines, trailing whitespace, comments, indentation scaling) and the error path end-to-end on mutated files", 
          "parsers themselves (Lark grammar, hand-written 1.0 parser) are unknown code; hang-freedom only by timeout in the bounded part"),
- "C14": (None, "compute_next_steps on generated structured 1.0 flows vs a reference structured-program reading; decision is a function of the history alone", "bounds in evidence"),
+ "C14": ("sliding.slide: under the closure precondition (C12) the head stays inside the flow, the result is None / the finish marker / the position of a non-sliding "
+         "element, and every iteration moves the head the structured way (if: then-branch iff condition; while: body iff condition; break / continue offsets)",
+         "compute_next_steps on generated structured 1.0 flows vs a reference structured-program reading; decision is a function of the history alone", "`set` elements excluded from the proved part by precondition; eval_expression is unknown pure code; the multi-flow decision "
+         "(compute_next_state) is bounded only"),
  "C15": (None, "conversation isolation on a shared LLMRails instance: sequential interleavings, cache-key injectivity (exhaustive small lists), llm_params sequential and "
                "concurrent (asyncio tasks with gated latencies)", "bounds in evidence"),
- "C16": (None, "all 16 subsets of rail categories x verdict combinations x texts through the real generate, with log oracle; multi-turn on one instance and with state", "bounds in evidence"),
- "C17": (None, "hostile LLM outputs at every call position through the real LLMRails in 8 Colang 1.0 modes and 3 Colang 2.x set-ups: generate never raises, well-formed "
-               "message, template/variable syntax returned literally; totality of the post-LLM string helpers and output parsers", "bounds in evidence"),
+ "C16": ("flow contracts on llm_flows.co: with a category disabled its rails do not run (input / output / retrieval), with dialog disabled generate_user_intent "
+         "is never executed and the flow answers with $user_message (output off) or BotMessage($bot_message); $skip_output_rails never survives `process bot message`",
+         "all 16 subsets of rail categories x verdict combinations x texts through the real generate, with log oracle; multi-turn on one instance and with state; the generation log oracle", "A-COLANG (see C01); compute_generation_log and the events cache are bounded only"),
+ "C17": ("totality of the post-LLM string helpers of actions/llm/utils.py (get_first_nonempty_line, get_top_k_nonempty_lines, strip_quotes, get_multiline_response, "
+         "remove_action_intent_identifiers, get_initial_actions, get_first_user_intent, get_first_bot_intent, get_first_bot_action): for every string / list of strings "
+         "they raise nothing and return the documented shape", "hostile LLM outputs at every call position through the real LLMRails in 8 Colang 1.0 modes and 3 Colang 2.x set-ups: generate never raises, well-formed "
+               "message, template/variable syntax returned literally; output parsers", "str.split/strip/replace are uninterpreted with partial axioms (A-SPLIT, A-STRIP, A-REPLACE); containment of what happens inside actions is C03; "
+         "the never-evaluated (data-flow) clause is bounded only"),
  "C18": (None, "StreamingHandler on all 2^(n-1) chunkings of short texts for every prefix/suffix/stop configuration family, three ways of driving it", "bounds in evidence"),
  "C19": (None, "cache_embeddings / EmbeddingsCache / batching with a gated fake model: own vector per text, input order, completion of concurrent requests", "bounds in evidence"),
  "C20": ("every path the real _get_rails hands to RailsConfig.from_path (ghost trace) is the configured root or lies lexically inside it with no '..' component, on "
